@@ -15,7 +15,7 @@ demo_src = open(os.path.join(out, demo)).read()
 head = demo_src[:3000]
 m = re.search(r'([\w/\.-]+/zz_\w*demo\w*_test\.go|[\w/\.-]+_test\.go)', head)
 place = m.group(1) if m else None
-cmds = re.findall(r'(go test [^\n`\'"]+)', head)
+cmds = re.findall(r'(go test [^\n`"]+)', head)
 cmd = re.split(r'\s{2,}|\(', cmds[0].strip())[0].strip().rstrip('.)') if cmds else None
 if not place or not cmd:
     print("cannot parse demo header", place, cmd); sys.exit(2)
